@@ -37,6 +37,12 @@ def unit_copy_use(twin=False):
                 U.discharge_valid(r, "%s.%s" % (kname, "copied_only_when_in_use" if copies else "left_alone_only_when_not_in_use"), list(s.pc), in_use if copies else tm.not_(in_use))
             if not flags:
                 # not taking part: nothing but `save.K = FALSE` may be written, nothing copied... or a kind without save slot (mix, temperature, pressure, solution)
+                ranged = sorted(k[2:-5] for k in wr if k.startswith("n_") and k.endswith("_user"))
+                if copies and ranged:
+                    # a save range is written for this kind, so it has a save slot: the flag must be raised with it (saver() consults the flag first)
+                    kinds += 1
+                    r.add("%s.writes_flag_and_both_ends_of_the_save_range" % ranged[0], FAILED, "symex", 0, "written: %s (the save flag is not raised)" % sorted(wr), kind="frame")
+                    continue
                 if copies:
                     # kinds that are only copied (mix, solution, temperature, pressure)
                     e = copies[0]
